@@ -22,7 +22,7 @@ RULE = (
 )
 REQUIRED = ["smiles_roundtrip_checked", "graph_tables_checked", "h_roundtrip_checked", "implicit_hydrogen_checked",
             "implicit_hydrogen_multi_h_same_atom", "gml_roundtrip_checked", "gml_equivalence_checked",
-            "charged_molecules", "aromatic_molecules", "charge_changing_rules", "h2_molecules", "reindex_runs"]
+            "charged_molecules", "aromatic_molecules", "charge_changing_rules", "h2_molecules", "reindex_runs", "h_roundtrip_scrambled_ids", "multiply_charged_rules"]
 ASSUMPTIONS = [
     "stereochemistry is not carried by the graph layer; canonical SMILES compared non-isomerically",
     "GML node labels carry element and charge only; hydrogen counts are not part of a GML rule and are not compared there",
@@ -109,6 +109,17 @@ def check_molecule(ctx, smi, tag):
         s3 = graph_to_smi(gg)
         if s3 is None or canon(s3) != ref:
             ctx.violation("h-molecule", {**wit, "out": s3}, f"the {name}-hydrogen graph is a different molecule: {s3!r}")
+    # the same round trip on a renumbered copy whose nodes were inserted in a non-ascending id order
+    gs, mp = WG.scramble(g, rng)
+    es = h_to_explicit(gs)
+    ctx.count("h_roundtrip_scrambled_ids")
+    p2 = same_graph(gs, h_to_implicit(es))
+    if p2 or total_h(es) != th or set(gs.nodes) - set(es.nodes):
+        ctx.violation("h-roundtrip", {**wit, "scrambled_nodes": list(gs.nodes)}, f"h_to_explicit/h_to_implicit on a renumbered copy (node order {list(gs.nodes)[:8]}): {p2 or 'hydrogen count / atoms changed'}")
+    else:
+        s5 = graph_to_smi(es)
+        if s5 is None or canon(s5) != ref:
+            ctx.violation("h-molecule", {**wit, "scrambled_nodes": list(gs.nodes), "out": s5}, f"explicit-hydrogen form of a renumbered copy is a different molecule: {s5!r}")
     # partial expansion on a node subset
     nodes = [n for n in g.nodes if g.nodes[n].get("hcount", 0) > 0]
     if nodes:
@@ -283,9 +294,25 @@ def check_reaction(ctx, r, tag):
              sample={"space": tag, "rsmi": r, "centre_atoms": rc.number_of_nodes()} if (ctx.rng.random() < 0.01) else None)
 
 
+CHARGED_RXNS = [
+    "[O-2:1].[CH3:2][Cl:3]>>[O-:1][CH3:2].[Cl-:3]",
+    "[S-2:1].[CH3:2][Br:3]>>[S-:1][CH3:2].[Br-:3]",
+    "[Mg+2:1].[OH-:2]>>[Mg+:1][OH:2]",
+    "[Fe+3:1].[Cl-:2]>>[Fe+2:1][Cl:2]",
+    "[CH3:17][Cl:27].[OH-:37]>>[CH3:17][OH:37].[Cl-:27]",
+    "[O-:1][P:2](=[O:3])([O-:4])[O-:5].[CH3:6][I:7]>>[CH3:6][O:1][P:2](=[O:3])([O-:4])[O-:5].[I-:7]",
+    "[NH4+:1].[OH-:2]>>[NH3:1].[OH2:2]",
+]
+
+
 def run(ctx):
     rng = ctx.rng
-    mols = list(corpus.molecules()) + corpus.VENDORED_MOLECULES
+    for i, r in enumerate(CHARGED_RXNS):
+        if ctx.mine(i):
+            ctx.count("multiply_charged_rules")
+            check_reaction(ctx, r, "hand-written reactions with charges of magnitude >= 2 and non-trivial numbering")
+            check_reaction(ctx, corpus.renumber(r, rng), "hand-written reactions with charges of magnitude >= 2 and non-trivial numbering")
+    mols = list(corpus.molecules()) + corpus.VENDORED_MOLECULES + ["[O-2]", "[Mg+2]", "O=S(=O)([O-])[O-]", "[Fe+3]", "[N-3]"]
     for i, s in enumerate(mols):
         if ctx.mine(i):
             check_molecule(ctx, s, "corpus molecules + vendored list")
